@@ -41,6 +41,8 @@ def log(*a):
 def env_with(extra=None):
     e = dict(os.environ)
     e.update(GOENV)
+    if os.environ.get("VERIF_COVER"):
+        e["GOCOVERDIR"] = os.environ["VERIF_COVER"]
     if extra:
         e.update(extra)
     return e
@@ -316,6 +318,10 @@ def go_build(pid, cmd_pkg, tags=("verif",), race=False, out_name=None, timeout=9
     args = ["go", "build", "-tags", ",".join(tags), "-o", out]
     if race:
         args.append("-race")
+    if os.environ.get("VERIF_COVER"):
+        # development aid (never set by registered commands): statement coverage of the library by the drivers,
+        # written to the directory named by VERIF_COVER; read with `go tool covdata func -i=<dir>`
+        args += ["-cover", "-coverpkg=all"]
     args.append("./cmd/" + cmd_pkg)
     t0 = time.time()
     p = subprocess.run(args, cwd=HARNESS, env=env_with(), stdout=subprocess.PIPE, stderr=subprocess.STDOUT, text=True,
